@@ -3,6 +3,35 @@ import SygmaModel.Model.C01
 namespace Sygma.Drv.C01
 open Sygma.C01
 
+/-- tail-recursive hex decoding (multi-megabyte calldata lines); shadows `Sygma.fromHex` in this file -/
+def fromHexGo' : List Char → Array UInt8 → Option (Array UInt8)
+  | [], acc => some acc
+  | [_], _ => none
+  | a :: b :: rest, acc =>
+    match hexVal a, hexVal b with
+    | some x, some y => fromHexGo' rest (acc.push (UInt8.ofNat (x * 16 + y)))
+    | _, _ => none
+
+def fromHex (s : String) : Option Bytes :=
+  if s = "-" then some [] else (fromHexGo' s.toList #[]).map (·.toList)
+
+def parseType : String → Option TType
+  | "fungible" => some .fungible | "semiFungible" => some .semiFungible | "nonFungible" => some .nonFungible
+  | "permissionedGeneric" => some .permissionedGeneric | "permissionlessGeneric" => some .permissionlessGeneric | _ => none
+
+/-- payload item `b:<hex>` or `i:<n,n,…>` -/
+def parseItem (s : String) : Option PItem :=
+  if s.startsWith "b:" then (fromHex (s.drop 2).toString).map PItem.bytes
+  else if s.startsWith "i:" then (natList (s.drop 2).toString).map PItem.ints
+  else none
+
+def lenBucket (n : Nat) : String :=
+  if n < 256 then "<256" else if n < 65536 then "<65536" else "≥65536"
+
+def itemLen : PItem → Nat
+  | .bytes b => b.length
+  | .ints xs => xs.length
+
 def parseSk : String → Option SrcKind
   | "erc20" => some .erc20 | "erc721" => some .erc721 | "erc1155" => some .erc1155
   | "generic" => some .generic | "sub" => some .sub | "btc" => some .btc | _ => none
@@ -109,6 +138,24 @@ def handle (op : String) (args : List String) (impl : String) : Option Verdict :
           | _, _ => false)
       | _ => false
     return ⟨showOut m1 ++ "|" ++ showOut m2, ok, s!"seq:{sk}>{dk},{sk2}>{dk2}:{outClass m1}:{outClass m2}"⟩
+  -- a message handed directly to the destination handler
+  | "msg", [dk, typ, s, d, nonce, rid, payload, gas] => some <| Id.run do
+    let some dk' := parseDk dk | return bad
+    let some typ' := parseType typ | return bad
+    let some s := s.toNat? | return bad
+    let some d := d.toNat? | return bad
+    let some nonce := nonce.toNat? | return bad
+    let some rid := fromHex rid | return bad
+    let some pl := (items payload ";").mapM parseItem | return bad
+    let some gas := (if gas = "n" then some none else gas.toNat?.map some) | return bad
+    let m : Msg := ⟨⟨s, d, nonce, rid⟩, typ', pl, gas⟩
+    let o := destOut dk' m
+    let wf := (expectedMsg dk' m).isSome
+    let ok := match parseOut impl with
+      | some x => decide (P01m dk' m x)
+      | none => false
+    let mx := pl.foldl (fun a i => max a (itemLen i)) 0
+    return ⟨showOut o, ok, s!"msg:{typ}>{dk}:{if wf then "fits" else "nofit"}:{outClass o}:maxfield{lenBucket mx}"⟩
   | "e2e", [sk, dk, s, d, nonce, rid, a1, a2] => some <| Id.run do
     let some sk' := parseSk sk | return bad
     let some dk' := parseDk dk | return bad
